@@ -59,6 +59,7 @@ def obligations(ctx):
         return "e2n_bigint_form", [[1 if v < 0 else 0], le_bytes(mag & (U64 - 1), 8), le_bytes((mag >> 64) & (U64 - 1), 8), le_bytes((mag >> 128) & (U64 - 1), 8)]
     ob.finish(E, nat)
     struct_forms(ctx)
+    output_forms(ctx)
 
 
 # ---------------------------------------------------------------- struct-level forms against a table written from the Conway CDDL
@@ -206,3 +207,75 @@ def struct_forms(ctx):
     ob.bound += ". Covered (serializer paths): " + ", ".join(covered)
     ob.cross_every = 10
     ob.finish(agg)
+
+
+# ---------------------------------------------------------------- transaction outputs: the two CDDL forms
+def output_forms(ctx):
+    """transaction_output = legacy_transaction_output / post_alonzo_transaction_output
+         legacy      = [address, amount : value, ? datum_hash : $hash32]
+         post_alonzo = {0 : address, 1 : value, ? 2 : datum_option, ? 3 : script_ref}
+       Which optional parts exist is read from the VALUE (fields plutus_data / script_ref), not from the serializer's own
+       branching; the emitted container must then be one of the forms the CDDL allows for that value."""
+    P = ctx.P
+    ob = Obligation(ctx, "c03_e2_transaction_output_forms", "every serializer path of TransactionOutput on a lazily initialised value (datum absent / hash / inline, script reference absent / present); "
+                    "address, value, datum and script reference are opaque items", ["<TransactionOutput as Serialize>::serialize", "TransactionOutput::has_plutus_data / has_script_ref / data_hash", "opt64"],
+                    fallback_native="e2n_c03_struct_forms")
+    ty = "TransactionOutput"
+    names, ftys = P.struct_fields.get(ty), getattr(P, "struct_field_types", {}).get(ty)
+    if not names or not {"address", "amount", "plutus_data", "script_ref"} <= set(names):
+        ob.fail("TransactionOutput no longer has the fields address/amount/plutus_data/script_ref"); ob.finish(Engine(P)); return
+    E = Engine(P, max_loop=14)
+    CM.install(E, target=ty)
+    try:
+        outs = E.explore("<%s as cbor_event::se::Serialize>::serialize" % ty, lambda: [VRef(Cell(VLazy("v", ty), "self")), VRef(Cell(CM.VSer(), "ser"))], max_paths=200)
+    except (Unsupported, PathAbort) as e:
+        ob.fail("serializer cannot be executed (%s)" % str(e)[:100]); ob.finish(E); return
+    seen = set()
+    for o in outs:
+        if o.kind == "bound":
+            continue
+        if o.kind != "return" or o.value.variant != "Ok":
+            ob.violation("the serializer does not return Ok on a constructible output (%s %s)" % (o.kind, o.msg[:80])); continue
+        E.enter(o)
+        toks = list(VM.deref(E, o.args[1]).tokens)
+        val = VM.deref(E, o.args[0])
+        def field(f):
+            i = names.index(f)
+            return VM.deref(E, val.fields[i]) if isinstance(val, VStruct) else VM.deref(E, E.nav(val, [("field", i, ftys[i])]))
+        def opt(f):
+            v = field(f)
+            if isinstance(v, VLazy):
+                v = E.force_enum(v)
+            return VM.deref(E, v.fields[0]) if v.variant == "Some" else None
+        datum, sref = opt("plutus_data"), opt("script_ref")
+        dkind = None
+        if datum is not None:
+            if isinstance(datum, VLazy):
+                datum = E.force_enum(datum)
+            dkind = datum.variant
+        what = "output with datum %s, script reference %s" % (dkind or "absent", "present" if sref is not None else "absent")
+        seen.add((dkind, sref is not None))
+        shape = [(t[0], t[1]) if t[0] in ("array", "map", "tag") else ((t[0], t[1]) if t[0] == "uint" and z3.is_int_value(z3.simplify(t[1])) else (t[0],)) for t in toks]
+        shape = [(s[0], s[1].as_long()) if s[0] == "uint" and len(s) > 1 else s for s in [(s[0], z3.simplify(s[1])) if s[0] == "uint" and len(s) > 1 else s for s in shape]]
+        post = [("map", 2 + (datum is not None) + (sref is not None)), ("uint", 0), ("item",), ("uint", 1), ("item",)]
+        if datum is not None:
+            post += [("uint", 2), ("item",)]
+        if sref is not None:
+            post += [("uint", 3), ("item",)]
+        allowed = [post]
+        if sref is None and dkind in (None, "DataHash"):
+            allowed.append([("array", 2 + (dkind is not None)), ("item",), ("item",)] + ([("item",)] if dkind else []))
+        if shape not in allowed:
+            ob.violation("%s: emitted form %s; the CDDL allows %s" % (what, shape, " or ".join(str(a) for a in allowed))); continue
+        # the items are the value's own parts, in the prescribed positions
+        items = [t for t in toks if t[0] == "item"]
+        eqs = [items[0][1] == E.as_u(field("address")), items[1][1] == E.as_u(field("amount"))]
+        if sref is not None:
+            eqs.append(items[-1][1] == E.as_u(sref))
+        if shape[0][0] == "array" and dkind == "DataHash":
+            eqs.append(items[2][1] == E.as_u(VM.deref(E, datum.fields[0])))
+        ob.vc("%s: address, amount%s in their CDDL positions" % (what, ", datum hash" if shape[0][0] == "array" and dkind else (", script reference" if sref is not None else "")), o.pc, z3.And(eqs))
+    want = {(d, s) for d in (None, "DataHash", "Data") for s in (False, True)}
+    if seen != want:
+        ob.fail("expected the six datum x script-reference combinations, saw %s" % sorted(map(str, seen)))
+    ob.finish(E)
